@@ -76,9 +76,18 @@ def collect(pid, tier, seed, d, binp):
             f.write(s + "\n")
     hist = os.path.join(d, "batch_hist.ndjson")
     cap = 2500 if tier == "quick" else 10000
-    run_harness(binp, ["batch", "--scn", scnp, "--out", hist, "--seed", str(seed), "--count", str(count), "--modes", modes,
-                       "-x", "maxscn=%d,bigcount=%d" % (cap, 6 if tier == "quick" else 40)])
+    crash = run_harness(binp, ["batch", "--scn", scnp, "--out", hist, "--seed", str(seed), "--count", str(count), "--modes", modes,
+                               "-x", "maxscn=%d,bigcount=%d" % (cap, 6 if tier == "quick" else 40)], tolerate_crash=True)
+    if crash:
+        # keep only complete lines of what was recorded before the crash
+        with open(hist) as f:
+            good = [l for l in f.read().split("\n") if l.endswith("}")]
+        with open(hist, "w") as f:
+            f.write("\n".join(good) + ("\n" if good else ""))
+        log("the harness process crashed inside the library under test; judging the %d histories recorded before the crash" % len(good))
     fails, drifts, summ = judge_histories(d, "TPBatch", hist, pid, shards=8)
+    if crash and not [f_ for f_ in fails if f_[1] == pid]:
+        raise ToolFailure(crash)
     log("judged %d batch histories (%d events): %d failing, %d drifting" % (summ.get("scenarios", 0), summ.get("events", 0), len(fails), len(drifts)))
 
     # code -> spec: recorded histories (of a size TLC can search) must be explained by FlytBatch
